@@ -486,6 +486,8 @@ GRAPHS = {
     'A->B->A': {'a.vmf': ['b.vmf'], 'b.vmf': ['a.vmf']},
     'A->B,B;B->A': {'a.vmf': ['b.vmf', 'b.vmf'], 'b.vmf': ['a.vmf']},
     'A->B,C;B->C;C->(none)': {'a.vmf': ['b.vmf', 'c.vmf'], 'b.vmf': ['c.vmf'], 'c.vmf': []},
+    'A->A,A (mixed-case file name)': {'Tower_A.vmf': ['Tower_A.vmf', 'tower_a.VMF']},
+    'A->B,B;B->A (mixed-case file names)': {'Inst/A.vmf': ['inst/B.vmf', 'INST/b.vmf'], 'inst/b.vmf': ['Inst/A.vmf']},
     'chain depth 5': {'a.vmf': ['b.vmf'], 'b.vmf': ['c.vmf'], 'c.vmf': ['d.vmf'], 'd.vmf': ['e.vmf'], 'e.vmf': []},
 }
 HORIZON = 3000
@@ -499,13 +501,13 @@ def check_termination(acc: core.Acc, gname: str, limit) -> None:
     files = {}
     for fname, includes in graph.items():
         v = VMF()
-        v.create_ent('info_target', origin='0 0 0', targetname='t_' + fname[0])
+        v.create_ent('info_target', origin='0 0 0', targetname='t_' + fname[0].lower())
         for j, inc in enumerate(includes):
             v.create_ent('func_instance', file=inc, origin=f'{16 * (j + 1)} 0 0', angles='0 90 0', targetname=f'sub{j}')
         files[fname] = v.export(inc_version=False)
     fsys = VirtualFileSystem(files)
     main = VMF()
-    main.create_ent('func_instance', file='a.vmf', origin='0 0 0', angles='0 0 0', targetname='root')
+    main.create_ent('func_instance', file=next(iter(graph)), origin='0 0 0', angles='0 0 0', targetname='root')
     calls = [0]
     real = instancing.collapse_one
 
